@@ -550,6 +550,24 @@ def db_experiment(c):
         move.distribution = dist
     if sysname == "gc":
         obs["N"] = x0["N"]
+        # the proposal must choose its DIRECTION independently of the state (the textbook ratio above assumes it): with
+        # the direction forced (bias 0 / 1) the move deletes / inserts, and a deletion from an empty system is an invalid
+        # move (stay at x), never an insertion in disguise. After an ACCEPTED trial the particle counter moves by ±1
+        # particle (not by the number of atoms).
+        probes = {}
+        for bias, name in ((0.0, "forced-delete"), (1.0, "forced-insert")):
+            mcp = make_sim(c, x0, c["seed"] + 17)
+            mvp = mcp.moves["m"].move
+            mvp.bias_towards_insert = bias
+            okp = bool(mvp(mcp.context))
+            d = int(mcp.context.particle_delta)
+            rec_p = {"moved": okp, "delta": d, "natoms": len(mcp.atoms)}
+            if okp:
+                mcp.save_state()
+                rec_p["counter"] = int(mcp.context.number_of_exchange_particles)
+            probes[name] = rec_p
+        obs["probes"] = probes
+        obs["natoms0"] = len(atoms)
     ok = bool(move(ctx))
     obs["moved"] = ok
     if not ok:
@@ -663,6 +681,19 @@ class DetailedBalance(common.Suite):
         if "exception" in obs:
             return [(f"db-residual:{tag}:exception:{obs['exception']}", obs.get("message", "") + obs.get("trace", "")[-600:])]
         out = []
+        if case["sys"] == "gc" and "probes" in obs:
+            n0, na0 = obs["N"], obs["natoms0"]
+            fd, fi = obs["probes"]["forced-delete"], obs["probes"]["forced-insert"]
+            if n0 == 0 and fd["moved"]:
+                out.append(("db-residual:gc:deletion-from-empty-system-proposes-something",
+                            f"a deletion drawn at N = 0 returned a valid move (delta {fd['delta']}, {fd['natoms']} atoms): the "
+                            "0 -> 1 edge is then proposed more often than 1 -> 0"))
+            if n0 > 0 and not (fd["moved"] and fd["delta"] == -1 and fd.get("counter") == n0 - 1 and fd["natoms"] < na0):
+                out.append(("db-residual:gc:forced-deletion", f"N = {n0}: {fd}"))
+            if not (fi["moved"] and fi["delta"] == 1 and fi.get("counter") == n0 + 1 and fi["natoms"] > na0):
+                out.append(("db-residual:gc:forced-insertion", f"N = {n0}: {fi}"))
+            if out:
+                return out
         if not obs.get("moved"):
             if case["sys"] == "gc" and case["n"] == 0:
                 return []  # a deletion from an empty reservoir cannot be proposed
